@@ -1118,6 +1118,7 @@ class CommentEndBangState:
 class BogusCommentState:
     props = ("C02",)
     modular = False
+    budget = {"prove_ms": 60000}      # the clause needs ~9 s of z3 (replace over a split of the input)
 
     def inputs(S):
         return dict(self=tokenizer(S, "bogusCommentState", "any"))
